@@ -341,6 +341,15 @@ func (v *authorizer) LoadPolicies(authorizerPolicies []byte) error {
 }
 
 func (v *authorizer) loadPoliciesV2(pbPolicies *pb.AuthorizerPolicies) error {
+	// a snapshot refers to symbols by the index they had when it was saved: it can
+	// only be loaded where nothing has been interned or added yet. Loading it on top
+	// of existing content would reinterpret that content through the snapshot's table.
+	if v.dirty || v.symbols.Len() != v.baseSymbols.Len() ||
+		len(*v.world.Facts()) != len(*v.baseWorld.Facts()) || len(v.world.Rules()) != len(v.baseWorld.Rules()) ||
+		len(v.checks) != 0 || len(v.policies) != 0 {
+		return errors.New("verifier: policies can only be loaded into an authorizer that holds no content yet (new or reset)")
+	}
+
 	policySymbolTable := datalog.SymbolTable(pbPolicies.Symbols)
 	v.symbols = v.baseSymbols.Clone()
 	v.symbols.Extend(&policySymbolTable)
